@@ -142,7 +142,8 @@ pub fn run_case_forked(c: &Case, timeout_ms: u64, out: &mut Vec<u8>) {
       if String::from_utf8_lossy(&err).contains("memory allocation of") {
         put("= abort\nX signal 6 allocfail\n".to_string());
       } else {
-        put("= abort-other\nX signal 6\n".to_string());
+        let e: String = String::from_utf8_lossy(&err).chars().filter(|c| !c.is_control()).take(160).collect();
+        put(format!("= abort-other\nX signal 6 stderr={}\n", e));
       }
     }
     Outcome::Signal(n) => put(format!("X signal {}\n", n)),
